@@ -48,7 +48,7 @@ CLAUSES = ("raises", "finite", "range", "permutation", "frame-rotation", "twofol
 
 # ----------------------------------------------------------------------------- concretisation
 def _rng(sc, salt=0, stream=0):
-    return np.random.default_rng([abs(SEED), 14, sc["sysno"], TEXTURES.index(sc["texture"]), sc["n"], sc["rep"], salt, stream])
+    return np.random.default_rng([abs(SEED), 14, sc["sysno"], TEXTURES.index(sc["texture"]), sc["n"], sc["rep"], salt, stream] + [int(x) for x in sc.get("mult", ())])
 
 
 def _random_rotations(k, rng):
@@ -59,15 +59,17 @@ def _random_rotations(k, rng):
     return Rotation.from_quat(q)
 
 
-def texture(cls, n, rng):
+def texture(cls, n, rng, mult=()):
     """n passive orientation matrices (n, 3, 3) of the texture class."""
     from scipy.spatial.transform import Rotation
 
     if cls == "uniform":
         return _random_rotations(n, rng).as_matrix()
-    if cls == "halfturn":  # n of {identity, two-folds about x, y, z}: every pair is an exact half-turn apart
-        pick = np.sort(rng.choice(4, size=n, replace=False))
-        return Rotation.from_quat(np.eye(4)[[3, 0, 1, 2]][pick]).as_matrix()
+    if cls == "halfturn":  # multiset over {identity, two-folds about x, y, z}: two grains are equal or an exact half-turn apart
+        which = np.repeat(rng.permutation(4), [int(x) for x in mult])
+        if len(which) != n:
+            raise MachineryError(f"halfturn multiplicities {mult} do not add up to n={n}")
+        return Rotation.from_quat(np.eye(4)[[3, 0, 1, 2]][rng.permutation(which)]).as_matrix()
     if cls == "twinned":  # n/2 random grains and their exact half-turn partners q -> q * (half-turn about z)
         q = _random_rotations(n // 2, rng).as_quat().astype(np.float32).astype(np.float64)  # float32-exact components,
         twin = np.column_stack([q[:, 1], -q[:, 0], q[:, 3], -q[:, 2]])  # so <q, twin> = 0 in the float32 arithmetic of the histogram
@@ -133,17 +135,17 @@ def call_index(o, system):
 
 def theory_leaves(sc):
     """Leaves of the closed form the spec states for the halfturn class: sum of the theoretical bin masses and
-    the mass of the last bin, evaluated with the real misorientations_random on the 1-degree bins."""
+    the masses of the first and last bin, evaluated with the real misorientations_random on the 1-degree bins."""
     fn, tmax = impl()["stats"].misorientations_random, int(sc["theta_max"])
     try:
         system = lattice(sc["system"])
         masses = [float(fn(float(k), float(k + 1), system)) for k in range(tmax)]
-        tsum, tlast = float(np.sum(masses)), masses[-1]
-        if not (np.isfinite(tsum) and np.isfinite(tlast) and 0.0 <= tsum <= 2.0 and 0.0 <= tlast <= 2.0):
-            return dict(texc="not-finite", tsum_e6=0, tlast_e6=0)
-        return dict(texc="None", tsum_e6=int(round(tsum * 1e6)), tlast_e6=int(round(tlast * 1e6)))
+        leaves = dict(tsum_e6=float(np.sum(masses)), tfirst_e6=masses[0], tlast_e6=masses[-1])
+        if not all(np.isfinite(v) and 0.0 <= v <= 2.0 for v in leaves.values()):
+            return dict(texc="not-finite", tsum_e6=0, tfirst_e6=0, tlast_e6=0)
+        return dict(texc="None", **{k: int(round(v * 1e6)) for k, v in leaves.items()})
     except Exception as ex:  # noqa: BLE001
-        return dict(texc=type(ex).__name__, tsum_e6=0, tlast_e6=0)
+        return dict(texc=type(ex).__name__, tsum_e6=0, tfirst_e6=0, tlast_e6=0)
 
 
 def base_line(sc, exc, m):
@@ -153,7 +155,7 @@ def base_line(sc, exc, m):
                 below0_e6=cap(max(0.0, -m) * 1e6) if fin else 0,
                 above1_e6=cap(max(0.0, m - 1.0) * 1e6) if fin else 0)
     if sc["texture"] == "halfturn":
-        line.update(theory_leaves(sc))
+        line.update(mult=[int(x) for x in sc["mult"]], **theory_leaves(sc))
     return line
 
 
@@ -173,7 +175,7 @@ def eval_unit(job):
     if sc["kind"] == "theory":
         line, out = eval_theory_scenario(sc)
         return sc["sid"], salt, key, line, out, time.time() - t0
-    o = texture(sc["texture"], sc["n"], _rng(sc, salt, 0))
+    o = texture(sc["texture"], sc["n"], _rng(sc, salt, 0), sc.get("mult", ()))
     if key != "base":
         r_i, rel, axis = key
         o = transformed(o, rel, axis, _rng(sc, salt, 1 + 10 * r_i))  # same subset of grains for every axis
@@ -548,6 +550,9 @@ def run_trace_controls(chk, d):
     def theory(system="hexagonal", fine=12, **kw):
         return dict(dict(ev="theory", system=system, exc="None", finite=True, int_fine_e6=fine, int_coarse_e6=fine), **kw)
 
+    def ht(mult, m, **kw):
+        return base(system="triclinic", tex="halfturn", n=sum(mult), m=m, mult=list(mult), texc="None", tsum_e6=1000000, tfirst_e6=25, tlast_e6=11110, **kw)
+
     abc = ("a", "b", "c")
     # n = 200: P = 19900, Flips = 5, RelTol = 1e-6 + 5/19900 = 252.3e-6; orthorhombic uniform bound = 0.05265
     planted = [
@@ -573,20 +578,22 @@ def run_trace_controls(chk, d):
         ("theory-off", [theory(fine=1001)], ("theory-integral",)),
         ("theory-nan", [theory(finite=False, fine=0)], ("theory-integral",)),
         ("theory-raised", [theory(exc="AssertionError", finite=False)], ("theory-raises",)),
-        # halfturn class (triclinic): T = 1.000000, t_L = 0.011110 -> M = (T - t_L + |t_L - 1|)/2 = 0.988890
-        ("clean-halfturn", [base(system="triclinic", tex="halfturn", n=3, m=988890, texc="None", tsum_e6=1000000, tlast_e6=11110),
-                            pair("frame-generic", [1000]), pair("permutation", [0])], ()),
-        ("clean-halfturn-edge-of-tolerance", [base(system="triclinic", tex="halfturn", n=4, m=988900, texc="None", tsum_e6=1000000, tlast_e6=11110)], ()),
-        ("halfturn-mass-lost", [base(system="triclinic", tex="halfturn", n=3, m=983300, texc="None", tsum_e6=1000000, tlast_e6=11110)], ("halfturn-closed-form",)),
-        ("halfturn-just-off", [base(system="triclinic", tex="halfturn", n=2, m=988901, texc="None", tsum_e6=1000000, tlast_e6=11110)], ("halfturn-closed-form",)),
-        ("halfturn-nan", [base(system="triclinic", tex="halfturn", n=3, m=0, finite=False, texc="None", tsum_e6=1000000, tlast_e6=11110)], ("finite",)),
-        ("halfturn-frame-moves-no-flip-allowance", [base(system="triclinic", tex="halfturn", n=3, m=988890, texc="None", tsum_e6=1000000, tlast_e6=11110),
-                                                    pair("frame-generic", [1001])], ("frame-rotation",)),
-        ("halfturn-transformed-nan", [base(system="triclinic", tex="halfturn", n=2, m=988890, texc="None", tsum_e6=1000000, tlast_e6=11110),
-                                      pair("frame-quarter", [2000000000], finite=False)], ("finite",)),
+        # halfturn class (triclinic), leaves T = 1.000000, t_1 = 0.000025, t_L = 0.011110:
+        #   <<1,1,1,0>>: Z/P = 0, H/P = 1        -> M = (T - t_1 - t_L + t_1 + (1 - t_L))/2       = 0.988890
+        #   <<30,30,0,0>>: Z = 870, H = 900, P = 1770, Z/P = 0.491525, H/P = 0.508475
+        #                                        -> M = (1 - .000025 - .01111 + .4915 + .497365)/2 = 0.988865
+        ("clean-halfturn", [ht([1, 1, 1, 0], 988890), pair("frame-generic", [1000]), pair("permutation", [0])], ()),
+        ("clean-halfturn-edge-of-tolerance", [ht([1, 1, 1, 1], 988900)], ()),
+        ("clean-halfturn-twins", [ht([30, 30, 0, 0], 988865)], ()),
+        ("halfturn-just-off", [ht([1, 1, 0, 0], 988901)], ("halfturn-closed-form",)),
+        ("halfturn-twins-edge-pairs-lost", [ht([30, 30, 0, 0], 999975)], ("halfturn-closed-form",)),  # all mass on the first bin
+        ("halfturn-nan", [ht([1, 1, 1, 0], 0, finite=False)], ("finite",)),
+        ("halfturn-frame-moves-no-flip-allowance", [ht([1, 1, 1, 0], 988890), pair("frame-generic", [1001])], ("frame-rotation",)),
+        ("halfturn-transformed-nan", [ht([1, 1, 0, 0], 988890), pair("frame-quarter", [2000000000], finite=False)], ("finite",)),
         ("twinned-frame-moves", [base(system="triclinic", tex="twinned", n=80, m=90000), pair("frame-generic", [6000000])], ("frame-rotation",)),
         ("clean-twinned", [base(system="triclinic", tex="twinned", n=80, m=90000), pair("frame-generic", [600000])], ()),
         ("halfturn-without-leaves", [base(system="triclinic", tex="halfturn", n=3, m=988890)], ("trace-halfturn-without-leaves",)),
+        ("halfturn-multiplicities-do-not-match-n", [dict(ht([2, 1, 0, 0], 600000), n=4)], ("trace-halfturn-bad-multiplicities",)),
         ("edge-texture-on-symmetric-system", [base(system="orthorhombic", tex="twinned", n=80)], ("trace-unknown-scenario-class",)),
         ("pair-without-base", [pair("permutation", [0])], ("trace-pair-without-base",)),
         ("wrong-axes", [base(system="rhombohedral"), pair("twofold-one", [0, 0, 0], abc)], ("trace-wrong-twofold-axes",)),
@@ -746,7 +753,6 @@ def main(tier):
                             chk.maximum(f"M_uniform[{sy}][n={s['n']}]", ln["m_e6"] / 1e6)
                         if s["texture"] == "halfturn" and ln.get("texc") == "None":
                             judged(sy, "halfturn-closed-form", "halfturn-closed-form" in cl)
-                            chk.maximum(f"halfturn_closed_form_dev_e6[{sy}]", abs(2 * ln["m_e6"] - (ln["tsum_e6"] - ln["tlast_e6"] + abs(ln["tlast_e6"] - 1_000_000))) / 2)
                         if s["texture"] == "single":
                             judged(sy, "single-near-1", "single-near-1" in cl)
                             chk.maximum(f"one_minus_M_single_e6[{sy}]", 1_000_000 - ln["m_e6"])
@@ -836,7 +842,7 @@ def main(tier):
         print(f"  {sy:13s} " + "  ".join(f"{c}={table[sy][c]}" for c in CLAUSES if c in table[sy]))
     first = next(s for s in scen if s["kind"] == "index" and s["system"] == "triclinic" and s["texture"] == "clustered" and s["n"] >= 20)
     chk.sample(dict(kind="index-trace", scenario={k: first[k] for k in ("system", "texture", "n", "rep", "relations")}, lines=results[first["sid"]][0][:3], values=results[first["sid"]][1]))
-    ht = next(s for s in scen if s["kind"] == "index" and s["texture"] == "halfturn" and s["n"] == 3)
+    ht = next(s for s in scen if s["kind"] == "index" and s["texture"] == "halfturn" and s["n"] == 60)
     chk.sample(dict(kind="index-trace", scenario={k: ht[k] for k in ("system", "texture", "n", "rep", "relations")}, lines=results[ht["sid"]][0][:2], values=results[ht["sid"]][1]))
     th = next(s for s in scen if s["kind"] == "theory" and s["system"] == "triclinic")
     chk.sample(dict(kind="theory-trace", scenario=th["system"], lines=results[th["sid"]][0], values=results[th["sid"]][1]))
@@ -846,7 +852,7 @@ def main(tier):
         rule="pool: every TLC-emitted imap schedule (n<=4, w<=3; quick: all with n<=3 + a seeded sample of n=4) replayed through the real misorientation_indices, "
         "distinct by event sequence; real pools by (system, stack form, ncpus); "
         "index: lattice system x texture class (uniform, single, clustered, girdle; for the triclinic system also halfturn = 2..4 mutually "
-        "half-turned orientations and twinned = random grains with exact half-turn partners, i.e. pairs exactly at theta_max) x size x seeded repetition x relation "
+        "half-turned orientations with multiplicities (closed form of M) and twinned = random grains with exact half-turn partners, i.e. pairs exactly at theta_max) x size x seeded repetition x relation "
         "(permutation, generic / quarter-turn frame rotation, two-fold relabelling of one grain / half the grains about each candidate axis), distinct by that tuple; "
         "theory: one quadrature per lattice system",
         exhaustive=False,
